@@ -1297,6 +1297,19 @@ func (c *Crash) cause(op string, a []string, repo string, pre, post, rec *repoOb
 			}
 		}
 		xs.refs, ys.refs = xr, yr
+		// a response document is readable as a manifest by its digest: that observation belongs to the referrers of its subject
+		xm, ym := map[string]bool{}, map[string]bool{}
+		for d, ok := range x.mans {
+			if !strings.Contains(d, ":R(") {
+				xm[d] = ok
+			}
+		}
+		for d, ok := range y.mans {
+			if !strings.Contains(d, ":R(") {
+				ym[d] = ok
+			}
+		}
+		xs.mans, ys.mans = xm, ym
 		return xs.key() == ys.key()
 	}
 	same := func(x, y []string) bool { return strings.Join(x, ",") == strings.Join(y, ",") }
